@@ -1144,6 +1144,12 @@ def generate_all():
     import os
     static = os.path.join(os.path.dirname(os.path.dirname(os.path.abspath(__file__))), 'kani', 'static')
     out['+src/core/verif_kani/h_drop.rs'] = open(os.path.join(static, 'h_drop.rs')).read()
+    out['+src/core/verif_kani/h_dep.rs'] = open(os.path.join(static, 'h_dep.rs')).read()
+    for nm in ('k_dep_vec_protocol', 'k_dep_vec_skip', 'k_dep_iter_protocol', 'k_dep_iter_skip'):
+        HARNESSES[nm] = dict(kernel='dependency', family='dep', props=['C01', 'C02', 'C05', 'C10', 'C11'], tier='quick', bounded=True,
+                             path='core::verif_kani::h_dep::%s' % nm, shape=dict(source='real ConIterOfVec / ConIterOfIter, 3 elements, one thread'),
+                             covers_expected=None, covers_min=0,
+                             bound='T1 conformance of the REAL dependency, sequential only: 3 symbolic elements, pulls of size 1 and 2, skip_to_end')
     for rel, fname, mod, names in (
             ('src/core/runner_settings/chunk_size.rs', 'pair_chunk_size.rs', 'core::runner_settings::chunk_size', ['k_pair_min_chunk_size', 'k_pair_auto_chunk_size', 'k_pair_calc_chunk_size']),
             ('src/core/runner_settings/utils.rs', 'pair_utils.rs', 'core::runner_settings::utils', ['k_pair_div_ceil']),
